@@ -53,6 +53,7 @@ def scenarios(n):
         ("login-right-pin-after-wrong", [f"logout @{ka}", f"login @{ka} 1 {hx('wrong-pin')}"], f"login @{ka} 1 {hx(USER_A)}"),
         ("logout", [], f"logout @{ka}"),
         ("reinit-token", [f"closeall t:{hx('tokB')}"], f"inittoken t:{hx('tokB')} {hx(SO_B)} {hx('tokB')}"),
+        ("inittoken-free", [], f"inittoken free {hx('so-of-tokC')} {hx('tokC')}"),
     ]
     return S
 
@@ -148,10 +149,16 @@ def judge_point(run, res):
     if res["recovery_status"] != "0" or not res["recovery"]:
         return False, "recovery-failed", "the recovery process ended with status %s (the token directory cannot be opened cleanly)" % res["recovery_status"]
     base = text_of(run["setup"])
-    rec = "reexec\n= 0\n" + text_of(res["recovery"])
+    recov = res["recovery"]
+    fresh_token = run["call"].startswith("inittoken free")
+    if fresh_token:
+        # a token being created has a serial number drawn at random in every run, and it "may be absent" or unfinished: its own slot is not judged; what is
+        # judged is that the directory opens (recovery status) and that the two existing tokens, their PINs and objects are what they were
+        recov = [p for p in recov if p[0].split()[0] != "slots"]
+    rec = "reexec\n= 0\n" + text_of(recov)
     t0 = base + rec
     t1 = base + text_of([run["dry_call"]]) + rec
-    variants = [("S0", t0), ("S1", t1)]
+    variants = [("S0", t0)] if fresh_token else [("S0", t0), ("S1", t1)]
     # a call that creates TWO objects (C_GenerateKeyPair): each of them may be absent ("an object being created may be absent")
     d = run["dry_call"]
     if d[0].startswith("genpair") and d[1] and d[1].split()[1] == "0" and len(d[1].split()) >= 5:
